@@ -72,3 +72,25 @@ PROPS["C11"] = {
     "suites": [("walk", 1000, 30000)],
     "assumptions": ["well-formed lists are accepted unless a panic class of C06 intervenes (unimplemented inversion, more than 99 closures open)"],
 }
+
+PROPS["C12"] = {
+    "deps": ["Proofs/C12_Final.vo"],
+    "props": "Props/C12.v",
+    "suites": [("walk", 1000, 30000)],
+    "assumptions": ["kinds outside C06's known class (invert_configuration unimplemented) and at most 99 closures open, i.e. the traversal returns Ok"],
+}
+PROPS["C03"] = {
+    "deps": ["Proofs/C12_Final.vo", "Proofs/Stereo.vo"],
+    "props": "Props/C03.v",
+    "suites": [("walk", 1000, 30000), ("reader", 400, 8000)],
+    "owner": lambda name: name.startswith("C03.") or name in ("C12.rebuilt_graph_is_arrival_first", "C01.text_round_trip_is_isomorphic", "C02.built_graph_is_denotation"),
+    "assumptions": ["non-tetrahedral configuration labels with a virtual hydrogen are C06's known class and excluded"],
+}
+
+PROPS["C01"] = {
+    "deps": ["Proofs/C01.vo", "Proofs/C09_Final.vo"],
+    "props": "Props/C01.v",
+    "suites": [("walk", 1000, 30000), ("reader", 600, 12000), ("hist", 400, 8000)],
+    "owner": lambda name: name.startswith("C01.") or name in ("C12.rebuilt_graph_is_arrival_first", "C02.built_graph_is_denotation", "C09.history_inverse", "C13.walk_joins_smallest_free"),
+    "assumptions": ["kinds outside C06's known class, at most 99 closures open, isotope/map below 1000 (C18)"],
+}
